@@ -901,7 +901,14 @@ class SX:
                     raise CannotDecide('unit of a compound quantity')
                 return [(st, Uv(obj.unit))]
             if attr == '__class__':
-                return [(st, Cv(obj.kind, of='dynamic'))]
+                return [(st, Cv(obj.kind))]
+            if attr.endswith('__UNITS'):
+                return [(st, Unk(f'{frame["cls"] or obj.kind}.__UNITS'))]
+            m = self.model.find_member(obj.kind, attr)
+            if m is not None and m.kind == 'property':
+                outs = self.run(m.node, m.module, m.cls, obj, {}, st, frame['depth'] + 1)
+                return [(o.state, o.value) if o.kind == 'return' else ((o.state, NoneV()) if o.kind == 'fall' else o)
+                        for o in outs]
             return [(st, Fv(f'bound:{attr}'))]   # bound method; resolved in call()
         if isinstance(obj, Cv):
             if attr == '__name__':
@@ -913,6 +920,8 @@ class SX:
             if attr in ('value', 'unit'):
                 raise CannotDecide(f'.{attr} of a value of unknown kind: {self.ctx.show(obj.term)[:60]}')
             return [(st, Fv(f'bound:{attr}'))]
+        if isinstance(obj, N) and attr == '__class__':
+            return [(st, Cv('number'))]
         if isinstance(obj, (Unk, Fv, Sv, Tv, NoneV, N, Bsym, Bv, Uv)):
             return [(st, Unk(f'{self.show(obj)}.{attr}'))]
         raise CannotDecide(f'attribute {attr} of {obj!r}')
@@ -1057,6 +1066,15 @@ class SX:
             g = G('eq', tuple(sorted((self.show(l), self.show(r)))))
             return Bsym(g.negate() if neg else g)
         if isinstance(op, (ast.In, ast.NotIn)):
+            if isinstance(r, Unk) and '__UNITS' in r.text:
+                fam = r.text.split('.')[0]
+                member = None
+                if isinstance(l, Sv):
+                    member = l.s in self.tables.table_of(fam)
+                elif isinstance(l, Uv):
+                    member = True if l.unit.lit is None else l.unit.lit in self.tables.table_of(fam)
+                if member is not None:
+                    return Bv(member != isinstance(op, ast.NotIn))
             g = G('in', (self.show(l), self.show(r)))
             return Bsym(g.negate() if isinstance(op, ast.NotIn) else g)
         num_l = isinstance(l, (N, Dyn))
@@ -1291,6 +1309,8 @@ class SX:
             return [(st, recv)]
         if isinstance(recv, Tv) and attr == 'append':
             return [(st.with_effect(('list-append', self.show(recv), args, n.lineno)), NoneV())]
+        if isinstance(recv, Unk) and recv.text.endswith('__UNITS') and attr == 'keys':
+            return [(st, Unk(recv.text + '.keys()'))]
         return [(st.with_effect(('opaque-call', self.show(recv) + '.' + attr, args, kwargs, n.lineno)),
                  Unk(ast.unparse(n)[:80]))]
 
@@ -1375,6 +1395,8 @@ class SX:
             return Bsym(G('issubclass', (self.show(a), self.show(b))))
         obj, clsarg = args
         names = self.class_names(n.args[1], clsarg)
+        if names is None and isinstance(clsarg, Cv) and clsarg.of is None:
+            names = [clsarg.name]
         if names is None:
             return Bsym(G('isinstance', (self.show(obj), self.show(clsarg))))
         if isinstance(obj, NoneV):
@@ -1392,7 +1414,7 @@ class SX:
             return Bsym(G('isinstance', (self.show(obj), tuple(sorted(names)))))
         if isinstance(obj, (Bv,)) or (isinstance(obj, Bsym)):
             return Bv('bool' in names or 'int' in names)
-        if isinstance(obj, Sv):
+        if isinstance(obj, (Sv, Uv)):
             return Bv('str' in names)
         if isinstance(obj, Ov) and obj.cls:
             if any(c in self.model.classes and self.model.is_subclass(obj.cls, c) for c in names):
@@ -1443,7 +1465,25 @@ class SX:
         vt = self.num_arg(value)
         q = Q(kind, self.ctx.reduce(vt * self.ufactor(kind, u)), u)
         s = st.with_effect(('construct', kind, vt, n.lineno))
-        return [(s, q)]
+        if not self.inline_ctor_guards:
+            return [(s, q)]
+        # run the constructor chain for its raise-guards (sign constraints, type checks)
+        init = self.model.find_member(kind, '__init__')
+        if init is None:
+            return [(s, q)]
+        fresh = Ov(f'new:{kind}@{n.lineno}', kind, True)
+        uval = unit if not isinstance(unit, Unk) else Uv(u)
+        outs = self.run(init.node, init.module, init.cls, fresh, {'value': value, 'unit': uval}, s, frame['depth'] + 1)
+        res = []
+        for o in outs:
+            if o.kind == 'raise':
+                res.append(o)
+            else:
+                st2 = o.state.copy()
+                st2.heap = {k: v for k, v in st2.heap.items() if k[0] != fresh.path}
+                st2.effects = tuple(e for e in st2.effects if not (e[0] == 'store' and e[1] == fresh.path))
+                res.append((st2, q))
+        return res
 
     def quantity_method(self, n, q: Q, attr, args, kwargs, st, frame) -> list:
         if attr == 'to':
@@ -1464,6 +1504,14 @@ class SX:
             if args or kwargs:
                 raise CannotDecide('trigonometric method with a frequency argument')
             return [(st, N(self.ctx.call(attr, q.term), 'float'))]
+        if attr == '__class__':
+            return self.construct(n, q.kind, args, kwargs, st, frame)
+        m = self.model.find_member(q.kind, attr)
+        if m is not None and m.kind in ('method', 'staticmethod'):
+            bound = self.bind(m.node, args, kwargs, skip_self=(m.kind == 'method'))
+            outs = self.run(m.node, m.module, m.cls, q, bound, st, frame['depth'] + 1)
+            return [(o.state, o.value) if o.kind == 'return' else ((o.state, NoneV()) if o.kind == 'fall' else o)
+                    for o in outs]
         raise CannotDecide(f'method {attr} of a {q.kind}')
 
     def object_method(self, n, obj: Ov, attr, args, kwargs, st, frame) -> list:
